@@ -25,11 +25,13 @@ import yaql
 from yaql.language import contexts, exceptions, expressions, factory, specs, utils, yaqltypes
 
 ID = 'C12'
-LEAN_MODULES = ['Yaql.Props.C12', 'Yaql.Props.C12Gen']
+LEAN_MODULES = ['Yaql.Props.C12', 'Yaql.Props.C12Gen', 'Yaql.Props.C12Args']
 REQUIRED_THEOREMS = ['Yaql.Props.C12.call_equiv', 'Yaql.Props.C12.ext_both_ways', 'Yaql.Props.C12.kind_exclusive',
                      'Yaql.Props.C12.spelling_kw_move', 'Yaql.Props.C12.spelling_default_move',
                      'Yaql.Props.C12.movesOk_spec', 'Yaql.Props.C12Gen.registry_wf',
-                     'Yaql.Props.C12Gen.registry_moves_ok', 'Yaql.Props.C12Gen.alias_convention']
+                     'Yaql.Props.C12Gen.registry_moves_ok', 'Yaql.Props.C12Gen.alias_convention',
+                     'Yaql.Props.C12Args.arglist_grammar', 'Yaql.Props.C12Args.arglist_only_shaped',
+                     'Yaql.Props.C12Args.argsOK_iff_shape']
 TRUSTED = ['harness/gens/registry.py (the dump of the live registry)',
            'the typed value corpus and the canonicalisation of results (harness/values.py)']
 ASSUMPTIONS = ['spelling_equiv is proved one parameter at a time (positional <-> keyword, default omitted <-> explicit); the '
@@ -399,7 +401,7 @@ def run(env, res):
     replay = json.load(open(env['replay']))['case'] if env['replay'] else None
     model_reqs = []
     for di, (li, name, fd) in enumerate(defs):
-        if replay and replay['def'] != di:
+        if replay and replay.get('def') != di:
             continue
         if name in NONDETERMINISTIC:
             bump('skipped-nondeterministic')
@@ -565,6 +567,9 @@ def run(env, res):
                             name, case['labels'], tag, real_pos, real_kw, mod_pos, mod_kw), case)
         res.traces += nb
         bump('bind-comparisons', nb)
+    if not replay or replay.get('kind') == 'arglist':
+        import props.c12args as c12args
+        c12args.run(env, res, hist)
     res.extra['histogram'] = hist
     return res
 
